@@ -4,6 +4,8 @@ CONSTANTS Urls <- UrlsC
           RebuildOnlyIfChanged = TRUE
           FirstOfBatch = FALSE
           PullOnNull = TRUE
+          SaveReadsDisk = FALSE
+          TamperAllowed = FALSE
           IdentsAccumulate = FALSE
           ForgetIdentRecord = TRUE
           ConfigRebuilds = TRUE
